@@ -33,6 +33,9 @@ func (d *DatasourceExecuting) Run(ctx ExecutionContext, produce ProduceFn, metaS
 		SkipPageIndex:    true,
 		SkipBloomFilters: true,
 	})
+	if err != nil {
+		return fmt.Errorf("couldn't open parquet file: %w", err)
+	}
 	usedFields := make([]string, len(d.fields))
 	for i := range usedFields {
 		usedFields[i] = d.fields[i].Name
